@@ -11,6 +11,7 @@ import (
 	"strings"
 	"sync"
 
+	"github.com/aml-org/amf-custom-validator/pkg/config"
 	"github.com/aml-org/amf-custom-validator/verifrt"
 	"github.com/open-policy-agent/opa/rego"
 )
@@ -95,7 +96,22 @@ type c10Scenario struct {
 	mk    func(results []CallRes) []func()
 }
 
-var c10SharedQ *rego.PreparedEvalQuery
+var c10SharedQ, c10SharedQ2 *rego.PreparedEvalQuery
+
+// c10Pd: every node violates (r must be "zz"), so every validation produces results whatever the data
+const c10Pd = `profile: c10 d
+prefixes:
+  ex: http://ex.org/
+violation:
+  - v0
+validations:
+  v0:
+    message: r is zz
+    targetClass: ex.T
+    propertyConstraints:
+      ex.p:
+        in: [zz]
+`
 
 func c10Scenarios() map[string]c10Scenario {
 	d1, d2 := c10Data(3), c10Data(4)
@@ -110,6 +126,11 @@ func c10Scenarios() map[string]c10Scenario {
 		}
 	}
 	valc := func(d string) func() CallRes { return func() CallRes { return ValidateCompiled(c10SharedQ, d) } }
+	valconf := func(p, d, iri string, inc bool) func() CallRes {
+		return func() CallRes {
+			return ValidateConf(p, d, Epoch2000, config.ReportConfiguration{IncludeReportCreationTime: inc, ReportSchemaIri: iri + "/report", LexicalSchemaIri: iri + "/lexical"}, nil)
+		}
+	}
 	mk := func(fs ...func() CallRes) func(results []CallRes) []func() {
 		return func(results []CallRes) []func() {
 			bodies := make([]func(), len(fs))
@@ -126,6 +147,11 @@ func c10Scenarios() map[string]c10Scenario {
 		"S2": {3, []string{"Validate(Pa,d1)", "Validate(Pb,d2)", "CompileProfile(Pc)"}, mk(val(c10Pa, d1), val(c10Pb, d2), comp(c10Pc))},
 		"S3": {3, []string{"ValidateCompiled(q,d1)", "ValidateCompiled(q,d2)", "ValidateCompiled(q,d1)"}, mk(valc(d1), valc(d2), valc(d1))},
 		"S4": {2, []string{"Validate(Pa,d1)", "Validate(Pa,d1)"}, mk(val(c10Pa, d1), val(c10Pa, d1))},
+		"S6": {2, []string{"ValidateWithConfiguration(Pa,d1,confA)", "ValidateWithConfiguration(Pa,d2,confB)"}, mk(valconf(c10Pd, d1, "http://a.org", true), valconf(c10Pd, d2, "http://b.org", false))},
+		"S7": {3, []string{"ValidateCompiledWithConfiguration(q,d1,confA)", "…(q,d2,confB)", "…(q,d1,confC)"}, mk(
+			func() CallRes { return ValidateCompiledConf(c10SharedQ2, d1, Epoch2000, config.ReportConfiguration{IncludeReportCreationTime: true, ReportSchemaIri: "urn:a", LexicalSchemaIri: "urn:la"}, nil) },
+			func() CallRes { return ValidateCompiledConf(c10SharedQ2, d2, FixedClock{Epoch2000.T.AddDate(1, 0, 0)}, config.ReportConfiguration{IncludeReportCreationTime: true, ReportSchemaIri: "urn:b", LexicalSchemaIri: "urn:lb"}, nil) },
+			func() CallRes { return ValidateCompiledConf(c10SharedQ2, d1, Epoch2000, config.ReportConfiguration{ReportSchemaIri: "urn:c", LexicalSchemaIri: "urn:lc"}, nil) })},
 		"S5": {2, []string{"CompileProfile(Pa)", "Validate(Pc,d2)"}, mk(comp(c10Pa), val(c10Pc, d2))},
 	}
 }
@@ -143,13 +169,13 @@ func c10Gen(tier string, emit func(c10Case)) {
 		s string
 		b int
 	}
-	plan := []sb{{"S1", 2}, {"S1r", 2}, {"S4", 2}, {"S2", 1}, {"S3", 2}, {"S5", 1}}
+	plan := []sb{{"S1", 2}, {"S1r", 2}, {"S4", 2}, {"S2", 1}, {"S3", 2}, {"S5", 1}, {"S6", 2}, {"S7", 2}}
 	if tier == "thorough" {
-		plan = []sb{{"S1", 3}, {"S1r", 3}, {"S4", 3}, {"S2", 2}, {"S3", 3}, {"S5", 3}}
+		plan = []sb{{"S1", 3}, {"S1r", 3}, {"S4", 3}, {"S2", 2}, {"S3", 3}, {"S5", 3}, {"S6", 3}, {"S7", 3}}
 	}
 	for _, p := range plan {
 		parts := 16
-		if p.s == "S3" {
+		if p.s == "S3" || p.s == "S7" {
 			parts = 1
 		}
 		for k := 0; k < parts; k++ {
@@ -165,21 +191,33 @@ func c10Run(c *Ctx, cs c10Case) {
 			panic("harness: C10 profile Pa does not compile: " + r.ErrString())
 		}
 		c10SharedQ = q
+		q2, r2 := Compile(c10Pd)
+		if q2 == nil {
+			panic("harness: C10 profile Pd does not compile: " + r2.ErrString())
+		}
+		c10SharedQ2 = q2
 	}
 	sc, ok := c10Scenarios()[cs.Scenario]
 	if !ok {
 		panic("harness: unknown scenario " + cs.Scenario)
 	}
-	// serial references: each body alone, no scheduler
+	// serial references: each body alone, no scheduler. The same serial pass is repeated before EVERY execution so
+	// that process-wide state the implementation may keep (caches, "last configuration") is at the same point at the
+	// start of every execution — and of a replay in a fresh process.
 	serial := make([]CallRes, sc.n)
-	for i := 0; i < sc.n; i++ {
-		res := make([]CallRes, sc.n)
-		sc.mk(res)[i]()
-		serial[i] = res[i]
-		if res[i].Panic != nil {
-			panic("harness: serial run panics: " + res[i].ErrString())
+	runSerial := func() {
+		for i := 0; i < sc.n; i++ {
+			res := make([]CallRes, sc.n)
+			sc.mk(res)[i]()
+			if serial[i].Report == "" && serial[i].Err == nil {
+				serial[i] = res[i]
+			}
+			if res[i].Panic != nil {
+				panic("harness: serial run panics: " + res[i].ErrString())
+			}
 		}
 	}
+	runSerial()
 	check := func(x Exec) {
 		c.Eval(1)
 		rc := c10Case{Scenario: cs.Scenario, Bound: cs.Bound, Parts: 1, Replay: x.Choices}
@@ -218,11 +256,13 @@ func c10Run(c *Ctx, cs c10Case) {
 		c.Max("hooked_accesses_in_one_execution", int64(x.Accesses))
 	}
 	if cs.Replay != nil {
+		runSerial()
 		x := runExec(sc.mk, sc.n, cs.Replay, false)
 		if x.Diverged != "" {
 			panic("harness: replay diverged: " + x.Diverged)
 		}
-		// determinism self-check: the same schedule twice gives identical observations
+		// determinism self-check: the same schedule from the same starting point gives identical observations
+		runSerial()
 		y := runExec(sc.mk, sc.n, cs.Replay, false)
 		if fmt.Sprint(x.Choices) != fmt.Sprint(y.Choices) || len(x.Results) != len(y.Results) {
 			panic("harness: the same schedule produced different executions")
@@ -235,7 +275,7 @@ func c10Run(c *Ctx, cs c10Case) {
 		check(x)
 		return
 	}
-	e := &Explorer{Mk: sc.mk, N: sc.n, Bound: cs.Bound, Part: cs.Part, Parts: cs.Parts, Check: check, Stop: c.Expired}
+	e := &Explorer{Mk: sc.mk, N: sc.n, Bound: cs.Bound, Part: cs.Part, Parts: cs.Parts, Check: check, Stop: c.Expired, Pre: runSerial}
 	e.Explore()
 	if e.Capped {
 		c.CapHit(fmt.Sprintf("C10 %s bound %d stopped by the soft deadline", cs.Scenario, cs.Bound))
@@ -269,6 +309,7 @@ func c10Run(c *Ctx, cs c10Case) {
 func RacePass(rounds int) {
 	q, _ := Compile(c10Pa)
 	c10SharedQ = q
+	c10SharedQ2, _ = Compile(c10Pd)
 	scs := c10Scenarios()
 	names := make([]string, 0, len(scs))
 	for n := range scs {
